@@ -441,7 +441,11 @@ func (e *Exec) appendBuiltin(fr *Frame, st *State, ins ssa.Instruction, cc *ssa.
 		}
 		e.note("append to slice of arrays abstracted")
 		e.havocAll(st)
-		return e.havocVal(st, cc.Args[0].Type(), "append").T
+		r := e.havocVal(st, cc.Args[0].Type(), "append").T
+		if !isString(cc.Args[1].Type()) {
+			e.assume(st, e.c.Eq(e.tm.SliceLen(r), e.c.Add(e.tm.SliceLen(s), e.tm.SliceLen(args[1].T))))
+		}
+		return r
 	}
 	mn, ms := e.memArr(et)
 	mem := e.heapGet(st, mn, ms)
@@ -738,10 +742,41 @@ func (e *Exec) callByContract(fr *Frame, st *State, ins ssa.Instruction, sp *Fun
 	c := e.c
 	k := e.eng.callOrdinal(fr.fn, ins)
 	short := shortFn(callee)
-	for _, a := range args {
+	// a pointer to a local, a field or an element (not a heap object of its own) is passed by copy-in / copy-out
+	// through a fresh object: sound as long as the callee has no other access path to that location
+	type copyBack struct {
+		p  Val
+		r  *Term
+		ty types.Type
+	}
+	var backs []copyBack
+	for i, a := range args {
 		if a.T == nil && a.Clo == nil {
-			e.fail("call of contracted %s with a static pointer argument (local whose address is taken must be heap-allocated)", callee)
+			var pt *types.Pointer
+			if i < len(callee.Params) {
+				pt, _ = callee.Params[i].Type().Underlying().(*types.Pointer)
+			}
+			if a.P == nil || pt == nil {
+				e.fail("call of contracted %s with a static pointer argument (local whose address is taken must be heap-allocated)", callee)
+			}
+			saved := e.frameOff
+			e.frameOff = true
+			r := e.newRef(st, "argbox")
+			v := e.load(st, a, pt.Elem())
+			e.store(st, Val{T: r}, pt.Elem(), v.T)
+			e.frameOff = saved
+			args[i] = Val{T: r}
+			backs = append(backs, copyBack{a, r, pt.Elem()})
+			e.assumed["pointer to a local, field or element passed to a contracted callee by copy-in/copy-out (the callee has no other access path to that location)"] = true
 		}
+	}
+	if len(backs) > 0 {
+		defer func() {
+			for _, b := range backs {
+				v := e.load(st, Val{T: b.r}, b.ty)
+				e.store(st, b.p, b.ty, v.T)
+			}
+		}()
 	}
 	savedW := e.witness
 	e.witness = e.witnessFor(fr, st)
